@@ -57,6 +57,38 @@ def same_data(a, b):
         return False
 
 
+def elem_facts(v):
+    """the `isinstance` facts of one element (the abstraction the Lean model of the list back end works on)"""
+    import datetime as _dt, ipaddress, numbers, pathlib, urllib.parse, uuid as _uuid
+
+    def safe(fn):
+        try:
+            return bool(fn())
+        except Exception:  # noqa
+            return False
+    f = {"none": v is None, "bool": isinstance(v, bool), "int": isinstance(v, int), "float": isinstance(v, float),
+         "complex": isinstance(v, complex), "number": isinstance(v, numbers.Number), "str": isinstance(v, str),
+         "datetime": isinstance(v, _dt.datetime), "date": isinstance(v, _dt.date), "time": isinstance(v, _dt.time),
+         "timedelta": isinstance(v, _dt.timedelta), "purepath": isinstance(v, pathlib.PurePath),
+         "path": isinstance(v, pathlib.Path), "parseresult": isinstance(v, urllib.parse.ParseResult),
+         "uuid": isinstance(v, _uuid.UUID), "ip": isinstance(v, ipaddress._BaseAddress)}
+    f["nonneg"] = f["int"] and safe(lambda: v >= 0)
+    f["abs"] = f["purepath"] and safe(lambda: v.is_absolute())
+    f["exists"] = f["path"] and safe(lambda: v.exists())
+    f["image"] = f["exists"] and safe(lambda: __import__("alpha")._path_image(v))
+    try:
+        from shapely.geometry.base import BaseGeometry
+        f["geom"] = issubclass(type(v), BaseGeometry)
+    except Exception:  # noqa
+        f["geom"] = False
+    try:
+        from visions.backends.python.types.email_address import FQDA
+    except Exception:  # noqa
+        from visions.types.email_address import FQDA
+    f["fqda"] = isinstance(v, FQDA)
+    return f
+
+
 def view(x, ts, types):
     mem = {str(t): outcome(lambda: bool(x in t)) for t in types}
     return {"mem": mem, "detect": outcome(lambda: str(ts.detect_type(x))), "infer": outcome(lambda: str(ts.infer_type(x)))}
@@ -294,7 +326,16 @@ def observe(recipe, backend):
                     back = outcome(lambda: ts.cast_to_inferred(x1))
                     if back[0] == "ok" and back[1] is not x1:
                         add("C05", "stale-after-edit", "no coercion applies after the in-place edit but cast_to_inferred returned another object")
-    return {"fails": fails, "infer": inf[1][1] and [str(t) for t in inf[1][1]] if inf[0] == "ok" else inf[1]}
+    out = {"fails": fails, "infer": inf[1][1] and [str(t) for t in inf[1][1]] if inf[0] == "ok" else inf[1]}
+    if backend == "list":
+        # what the Lean model of the list back end is compared with (membership of the 22 types, detection path)
+        try:
+            out["elems"] = [elem_facts(e) for e in x]
+            out["mem"] = v["mem"]
+            out["detect_path"] = [str(t) for t in d[1][1]] if d[0] == "ok" else ["raises", d[1]]
+        except Exception:  # noqa
+            pass
+    return out
 
 
 NP_POOLS = {
@@ -527,6 +568,22 @@ def run_backend(tier, seed, backend, n=None, nproc=16):
     G.files_dir()
     ffails, nfam = family_seq(backend)
     fails += ffails
+    model_dis = []
+    if backend == "list":
+        from common import Driver
+        idx = [i for i, o in enumerate(obs) if "elems" in o]
+        resps = Driver().batch([{"op": "pylist", "elems": obs[i]["elems"], "typesets": [COMPLETE]} for i in idx])
+        for i, resp in zip(idx, resps):
+            o = obs[i]
+            diffs = []
+            for t, m in o["mem"].items():
+                if m[0] == "ok" and resp["contains"].get(t) != m[1]:
+                    diffs.append({"what": "contains", "type": t, "real": m[1], "model": resp["contains"].get(t)})
+            tr = resp["trav"][0]
+            if "detect" in tr and o["detect_path"] and o["detect_path"][0] != "raises" and tr["detect"] != o["detect_path"]:
+                diffs.append({"what": "detect-path", "real": o["detect_path"], "model": tr["detect"]})
+            if diffs:
+                model_dis.append({"kind": "pylist", "recipe": o["recipe"], "diffs": diffs[:4]})
     crashes = [o for o in obs if "crash" in o]
     nontriv = set(canon(o["recipe"]["values"]) for o in obs if isinstance(o.get("infer"), list) and len(o["infer"]) >= 2)
     dist = {}
@@ -538,7 +595,7 @@ def run_backend(tier, seed, backend, n=None, nproc=16):
                     "length 0..6, with all permutations for n <= 3 and 2-fold repetition; non-trivial = distinct value lists "
                     "whose inference path has >= 2 types" % backend,
             "samples": [o["recipe"] for o in obs[:2]],
-            "disagreements": [{"kind": "harness-crash", "recipe": c["recipe"], "trace": c["crash"]} for c in crashes],
+            "disagreements": [{"kind": "harness-crash", "recipe": c["recipe"], "trace": c["crash"]} for c in crashes] + model_dis,
             "oracle_failures": fails, "distribution": {"paths": dist}}
 
 
